@@ -1,3 +1,63 @@
-From V Require Import C01.Model.
-Lemma placeholder : True. Proof. exact I. Qed.
-Print Assumptions placeholder.
+(* C01 — SRPC receiver delivers only genuine well-formed frames and is memory-safe.
+   Property theorems only: each is closed by `exact` of a lemma proved in C01/Proofs.v. *)
+From Coq Require Import List ZArith.
+Import ListNotations.
+From V Require Import Base.Bytes Gen.ProtoConsts C01.Model C01.Proofs.
+Local Open Scope Z_scope.
+
+(* For every sequence of receive chunks and iterate ticks (no chunk dropped by the staging buffer),
+   the packets handed to the handler are exactly a prefix of the frames that a chunk-free parser
+   finds in the whole stream: genuine, byte-for-byte, in order, at most once; a malformed frame
+   ends the list (nothing after it, nothing twice). *)
+Theorem C01_faithful : forall evs,
+  Forall ev_ok evs -> no_overflow (run evs) ->
+  exists F, filter is_deliver (run evs) = map deliver_of_frame F /\
+            prefix F (fst (frames_of (chunks_of evs))).
+Proof. exact C01_faithful_thm. Qed.
+Print Assumptions C01_faithful.
+
+Theorem C01_frames_are_slices : forall k s l st, bytes_ok s -> frames k s = (l, st) ->
+  exists rest, s = concat (map (fun f => f ++ TAG) l) ++ rest.
+Proof. exact C01_frames_are_slices_thm. Qed.
+Print Assumptions C01_frames_are_slices.
+
+Theorem C01_safe : forall evs,
+  Forall ev_ok evs ->
+  let '(s', o) := run_from CURRENT_SUMCHECK init evs in
+  ~ In Fault o /\ len (data (ib s')) <= size (ib s') /\ size (ib s') < BUFFER_MAX /\
+  len (stage s') <= RECVBUFF_MAX /\ len (sdp s') = SDP_SIZE.
+Proof. exact C01_safe_thm. Qed.
+Print Assumptions C01_safe.
+
+Theorem C01_malformed_reported : forall evs,
+  Forall ev_ok evs ->
+  let s := fst (run_from CURRENT_SUMCHECK init evs) in
+  halted s = false -> stage s = [] ->
+  parse1 (data (ib s)) = Bad \/ parse1 (data (ib s)) = BadVersion ->
+  step CURRENT_SUMCHECK s Tick = (fst (step CURRENT_SUMCHECK s Tick), [Restart]) /\
+  halted (fst (step CURRENT_SUMCHECK s Tick)) = true.
+Proof. exact C01_malformed_reported_thm. Qed.
+Print Assumptions C01_malformed_reported.
+
+(* the length test of the code before commit 201aa16 re-delivered the previous packet *)
+Theorem C01_old_code_refuted :
+  filter is_deliver (snd (run_from true init witness_evs)) =
+    [Deliver 7 50 DEVICE_PROTO_VERSION [1;2;3;4]; Deliver 7 50 DEVICE_PROTO_VERSION [1;2;3;4]]
+  /\ fst (frames_of (chunks_of witness_evs)) = [firstn 22 witness_frame1]
+  /\ filter is_deliver (run witness_evs) = [Deliver 7 50 DEVICE_PROTO_VERSION [1;2;3;4]].
+Proof. exact C01_old_code_refuted_thm. Qed.
+Print Assumptions C01_old_code_refuted.
+
+(* non-vacuity: a two-frame stream cut into three chunks meets the hypotheses and delivers both frames;
+   a state with a malformed head exists and is reported *)
+Example C01_nonvacuous :
+  let f1 := TAG ++ [DEVICE_PROTO_VERSION; 1;0;0;0; 40;0;0;0; 2;0;0;0; 9;8] in
+  let f2 := TAG ++ [DEVICE_PROTO_VERSION; 2;0;0;0; 50;0;0;0; 0;0;0;0] in
+  let s := f1 ++ TAG ++ f2 ++ TAG in
+  let evs := [Recv (firstn 7 s); Recv (firstn 20 (skipn 7 s)); Tick; Recv (skipn 27 s); Tick; Tick] in
+  run evs = [Deliver 1 40 DEVICE_PROTO_VERSION [9;8]; Deliver 2 50 DEVICE_PROTO_VERSION []]
+  /\ fst (frames_of (chunks_of evs)) = [f1; f2]
+  /\ run [Recv (TAG ++ [0])] = [] /\ run [Recv (TAG ++ [0] ++ zeros 18); Tick] = [Restart]
+  /\ run [Recv [1;2;3;4;5]] = [Restart].
+Proof. vm_compute. repeat split; reflexivity. Qed.
+Print Assumptions C01_nonvacuous.
